@@ -94,15 +94,15 @@ func (w Weights) with(over Weights) Weights {
 }
 
 type Gen struct {
-	t       *rapid.T
-	e       *Engine
-	w       Weights
-	kinds   []string
-	holders [][]byte // users and contracts
+	t                     *rapid.T
+	e                     *Engine
+	w                     Weights
+	kinds                 []string
+	holders               [][]byte // users and contracts
 	lastHandoverDelivered int
-	GasBias string // "" (mostly ample) | "tight" (around the charge)
-	Layer   string // label of the layer that produced the last op: G1 | G2 | G3 | sys | env
-	Shape   []string
+	GasBias               string // "" (mostly ample) | "tight" (around the charge)
+	Layer                 string // label of the layer that produced the last op: G1 | G2 | G3 | sys | env
+	Shape                 []string
 }
 
 func NewGen(t *rapid.T, e *Engine, w Weights) *Gen {
